@@ -9,8 +9,8 @@ PROPS = {
         "kani": ["types"],
         "technique": "Verus contracts on the record/header serialisers against APPNOTE layout spec functions (the independent parser), with inverse lemmas",
         "level_text": "Deductive proof, for every entry metadata value and every sink behaviour (short writes, failure at any call), that each serialiser either reports an error or has written exactly the APPNOTE 4.3.7 / 4.3.12 / 4.3.14-16 / 4.5.3 byte layout of its argument: local header, back-patch of CRC/sizes (in place, nothing else touched), central header with the ZIP64 record carrying exactly the saturated fields, end records; the UTF-8 flag is bit 11 exactly for non-ASCII names; name/extra lengths that do not fit 16 bits are refused before anything is written; version-needed is at least what the entry uses.",
-        "level_note": "ZipWriter (unit U7): each started entry's local header sits exactly at the recorded header_start and the data start is the position after it; finalize writes the end records for the directory it just wrote (exact values, ZIP64 records whenever a count/size/offset does not fit, saturated fields only together with them) and refuses a comment over 65535 bytes; the placement of every central record at the end (append-only frame over the whole loop) is argued from the per-record contract, not a checked lemma; utf8()/is_ascii are vstd/uninterpreted string specs; `impl Write for &mut [u8]` assumed at one call site (T7x)",
-        "undecided": ["central records of earlier iterations are still in place when finalize returns (append-only frame; per-record placement is proved)", "stored CRC/sizes match the decoded data: compressors assumed; the writer records crc32(hasher view) and the accepted byte count (proved)"],
+        "level_note": "ZipWriter (unit U7): each started entry's local header sits exactly at the recorded header_start and the data start is the position after it; finalize writes the end records for the directory it just wrote (exact values, ZIP64 records whenever a count/size/offset does not fit, saturated fields only together with them), refuses a comment over 65535 bytes, and leaves behind - in order, back to back, from the recorded directory start, each still intact when it returns - the APPNOTE central record of every entry (loop invariant dir_written: append-only frame); checked lemmas close the loop to the reader: the reader's walk visits exactly those offsets and parses every entry back with the name, CRC, sizes, offset, method, attributes, flags and timestamp (to 2 s) it was written with (lemma_directory_reads_back, unit U13); utf8()/is_ascii are vstd/uninterpreted string specs; `impl Write for &mut [u8]` assumed at one call site (T7x)",
+        "undecided": ["stored CRC/sizes match the decoded data: compressors assumed; the writer records crc32(hasher view) and the accepted byte count (proved)"],
     },
     "C08": {
         "units": ["U4_end_records", "U5_header_writers", "U6_central_parser", "U7_writer", "U8b_archive", "U13_roundtrip"],
@@ -73,8 +73,8 @@ PROPS = {
         "kani": ["types"],
         "technique": "Verus contracts on writer and reader against shared APPNOTE spec functions, with proved inverse lemmas for the end records",
         "level_text": "Deductive proof of both directions against the same APPNOTE layout functions: every header/record the writer emits equals enc_X(entry) (local header at the recorded offset, central header, end records) and every reader function returns the APPNOTE decode dec_X of the bytes it is handed, with inverse lemmas dec(enc(x)) == x proved for the three end records; the writer records crc32 of exactly the bytes accepted and their count; the reader stack verifies that CRC; DOS time pack/unpack are mutually inverse (Kani, all 2^32 words); the permission bits land in external_attributes << 16 and come back through unix_mode(); Drop and finish() both run the same finalize from the same state unless the writer is already closed.",
-        "level_note": "the whole-archive composition (this end record is the one found => these central records are the ones walked => this local header is the one located) is argued from the per-function contracts, not checked as one lemma; inverse lemmas for local/central headers are stated through the shared spec functions rather than proved as separate lemmas; compressors/decompressors are assumed inverse; names embedding record signatures are excluded by the property itself",
-        "undecided": ["whole-archive composition lemma (paper argument in DESIGN.md section 5 C01)", "dec_lfh(enc_lfh(x)) / dec_cdh(enc_cdh(x)) as checked lemmas (both sides are proved against the same spec functions)"],
+        "level_note": "composition is checked in pieces: dec(enc(x)) == x lemmas for the local header, the central header and the three end records; finalize leaves the central record of every entry in place (dir_written) and the end records describe that directory; lemma_directory_reads_back: the reader's directory walk over such bytes visits the same offsets and returns every entry with the metadata it was written with; stored content reaches the sink byte for byte (ZipWriter::write through the dispatch model) and is read back through the CRC layer. NOT one lemma: that the end record the reader's search finds is the one finalize wrote (names/comments embedding record signatures are excluded by the property itself) and that the located local header is the one start_entry wrote (both sides are proved against the same layout functions); compressors/decompressors are assumed inverse",
+        "undecided": ["end-record search finds the record finalize wrote / local header located is the one written: argued from the per-function contracts (paper argument in DESIGN.md section 5 C01)"],
     },
     "C11": {
         "units": ["U4_end_records", "U5_header_writers", "U6_central_parser", "U7_writer", "U7a_writer_leaves", "U7b_append_copy", "U8_entry_readers", "U8b_archive", "U10_zipcrypto", "U11_aes"],
